@@ -183,7 +183,29 @@ def _label_kwargs(o):
         kw["fallback"] = o["fallback"]
     if o.get("empty_labels") is not None:
         kw["empty_labels"] = list(o["empty_labels"])
-    return kw
+    return _containers(kw, o.get("_kw"))
+
+
+class _Dict(dict):
+    """a dict subclass (mappings are annotated `Dict[...]`: any dict is a legitimate argument)"""
+
+
+def _containers(kw, kind):
+    """the same options in other legitimate containers: reversed insertion order (of the mappings and of the keyword
+    arguments), OrderedDict, a dict subclass, a read-only mapping proxy; `empty_labels` as a tuple"""
+    if not kind:
+        return kw
+    from collections import OrderedDict
+    out = {}
+    for k, v in kw.items():
+        if isinstance(v, dict):
+            items = list(v.items())
+            v = {"reversed": lambda: dict(reversed(items)), "odict": lambda: OrderedDict(items),
+                 "proxy": lambda: types.MappingProxyType(dict(items)), "subclass": lambda: _Dict(items)}[kind]()
+        elif k == "empty_labels" and kind in ("proxy", "odict"):
+            v = tuple(v)
+        out[k] = v
+    return dict(reversed(list(out.items()))) if kind == "reversed" else out
 
 
 def _tag_kwargs(o):
@@ -195,7 +217,7 @@ def _tag_kwargs(o):
         kw["label_mapping"] = {_tag(k): v for k, v in o["label_mapping"]}
     if o.get("value_only") is not None:
         kw["value_only"] = o["value_only"]
-    return kw
+    return _containers(kw, o.get("_kw"))
 
 
 def _tags_kwargs(o):
@@ -206,7 +228,10 @@ def _tags_kwargs(o):
     for k in ("select_by_key", "index", "separator", "empty_label"):
         if o.get(k) is not None:
             kw[k] = o[k]
-    return kw
+    if o.get("index") is not None and o.get("_kw") == "proxy":
+        import numpy as np
+        kw["index"] = np.int64(o["index"])                      # an index as numpy hands it out
+    return dict(reversed(list(kw.items()))) if o.get("_kw") == "reversed" else kw
 
 
 def _fo(s, kind=None):
@@ -219,14 +244,18 @@ def _fo(s, kind=None):
     if kind == "np":
         import numpy as np
         return np.float64(float(q))
+    if kind == "f32":
+        import numpy as np
+        v = np.float32(float(q))
+        return v if Fraction(float(v)) == q else float(q)      # binary32 only where it holds the value exactly
     return float(q)
 
 
 def _io(n, kind=None):
-    if n is None or kind != "np":
+    if n is None or kind not in ("np", "f32"):
         return n
     import numpy as np
-    return np.int64(n)
+    return np.int64(n) if kind == "np" else np.int32(n)
 
 
 def _segment(j):
@@ -262,18 +291,86 @@ _RECS = {}
 
 def _rec(j):
     from soundevent import data
-    k = (j["samplerate"], j["te"], j.get("path") or "rec.wav")
+    build = j.get("build")
+    k = (j["samplerate"], j["te"], j.get("path") or "rec.wav", build)
     if k not in _RECS:
-        _RECS[k] = data.Recording(path=k[2], duration=1000.0, channels=1, samplerate=int(frac(k[0])),
-                                  time_expansion=float(frac(k[1])))
+        sr, te = int(frac(k[0])), float(frac(k[1]))
+        if build == "loose":                  # numbers as a caller may hold them: a numpy integer, an int-valued factor
+            import numpy as np
+            sr, te = np.int64(sr), (int(te) if te == int(te) else np.float64(te))
+        r = data.Recording(path=k[2], duration=1000.0, channels=1, samplerate=sr, time_expansion=te)
+        if build == "validate":
+            r = data.Recording.model_validate(r.model_dump())
+        elif build == "json":
+            r = data.Recording.model_validate_json(r.model_dump_json())
+        elif build == "copy":
+            r = r.model_copy(deep=True)
+        _RECS[k] = r
     return _RECS[k]
 
 
+REC_BUILDS = [None, None, None, "loose", "validate", "json", "copy"]
+
+
+def _tuples(c):
+    """coordinates as a caller may hold them: tuples instead of lists, Python ints where integral"""
+    if isinstance(c, list):
+        return tuple(_tuples(x) for x in c)
+    return int(c) if float(c).is_integer() else c
+
+
 def _ann(j, rec):
+    """a SoundEventAnnotation by the construction path `build`: the constructor (default), coordinates as tuples / ints,
+    through `model_validate` of the dumped dict, through JSON, a deep `model_copy`; `uuid`: the identity of the sound
+    event and of the annotation (two annotations of one list may share it while their content differs)"""
+    import uuid as _uuid
     from soundevent import data
-    g = None if j["geometry"] is None else gen_geom.to_data(j["geometry"])
-    return data.SoundEventAnnotation(sound_event=data.SoundEvent(geometry=g, recording=rec),
-                                     tags=[_tag(t) for t in j["tags"]])
+    build = j.get("build")
+    if j["geometry"] is None:
+        g = None
+    elif build == "tuples":
+        g = data.geometry_validate({"type": j["geometry"]["type"], "coordinates": _tuples(gen_geom.coords_float(j["geometry"]))}, mode="dict")
+    else:
+        g = gen_geom.to_data(j["geometry"])
+    ids = {} if j.get("uuid") is None else {"uuid": _uuid.UUID(j["uuid"])}
+    tags = [_tag(t) for t in j["tags"]]
+    a = data.SoundEventAnnotation(sound_event=data.SoundEvent(geometry=g, recording=rec, **ids),
+                                  tags=tuple(tags) if build == "tuples" else tags, **ids)
+    if build == "validate":
+        a = data.SoundEventAnnotation.model_validate(a.model_dump())
+        a.tags = tags
+    elif build == "json":
+        a = data.SoundEventAnnotation.model_validate_json(a.model_dump_json())
+        a.tags = tags
+    elif build == "copy":
+        a = a.model_copy(deep=True)
+    # (the tags stay the harness-built ones: pydantic's own dump -> validate of a `data.Term` is not the identity - the
+    #  fields `type_of_term` / `term_range` only validate under their aliases and come back as extras, so such a tag no
+    #  longer equals the tag it was dumped from; tags loaded through `soundevent.io` (AOEF) do.  That is a matter of the
+    #  data model, not of the crowsetta converters; the model of C10 keys tags by label / name / definition / value.)
+    return a
+
+
+ANN_BUILDS = [None, None, None, "tuples", "validate", "json", "copy"]
+
+
+def _anns(js, rec, share=False):
+    """the annotations of a list; with `share`, equal descriptions are one object (the same annotation listed twice)"""
+    if not share:
+        return [_ann(a, rec) for a in js]
+    return _shared(js, lambda a: _ann(a, rec))
+
+
+def _shared(js, build):
+    """one object per distinct description: equal descriptions are the *same* object listed twice"""
+    import json
+    memo, out = {}, []
+    for j in js:
+        k = json.dumps(j, sort_keys=True)
+        if k not in memo:
+            memo[k] = build(j)
+        out.append(memo[k])
+    return out
 
 
 def _ann_j(a):
@@ -287,17 +384,75 @@ def _crow(j):
     import crowsetta
     boxes = [_bbox(b) for b in j["bboxes"]]
     seqs = [crowsetta.Sequence.from_segments([_segment(s) for s in q]) for q in j["seqs"]]
+    if j.get("share"):                       # the same box / segment object listed twice where the descriptions are equal
+        boxes = _shared(j["bboxes"], _bbox)
+    if j.get("seq_build") and not j.get("stub"):
+        seqs = [_sequence(q, j["seq_build"]) for q in j["seqs"]]
     if j.get("stub"):
-        o = NS(notated_path=None if j["notated_path"] is None else __import__("pathlib").Path(j["notated_path"]))
+        attrs = {"notated_path": None if j["notated_path"] is None else __import__("pathlib").Path(j["notated_path"])}
         if boxes:
-            o.bboxes = boxes
+            attrs["bboxes"] = boxes
         if seqs:
-            o.seq = seqs if len(seqs) != 1 or j.get("as_list") else seqs[0]
-        return o
+            attrs["seq"] = seqs if len(seqs) != 1 or j.get("as_list") else seqs[0]
+        return _stand_in(j.get("stub_kind"), attrs)
     if seqs:
         assert len(seqs) == 1 and not boxes
         return crowsetta.Annotation(annot_path="annots.csv", notated_path=j["notated_path"], seq=seqs[0])
     return crowsetta.Annotation(annot_path="annots.csv", notated_path=j["notated_path"], bboxes=boxes)
+
+
+STUB_KINDS = ["ns", "slots", "prop", "classattr", "dataclass", "namedtuple"]
+
+
+def _stand_in(kind, attrs):
+    """an annotation-like object that is not a plain namespace (the converter reads `notated_path`, `bboxes`, `seq`
+    with getattr): __slots__, properties, class-level attributes, a dataclass, a namedtuple.  Kinds with a fixed set
+    of fields carry empty lists for what the annotation does not have (no boxes / no sequences)."""
+    if kind in (None, "ns"):
+        return NS(**attrs)
+    if kind == "slots":
+        cls = type("SlotAnnotation", (), {"__slots__": tuple(attrs)})
+        o = cls()
+        for k, v in attrs.items():
+            setattr(o, k, v)
+        return o
+    if kind == "prop":
+        cls = type("LazyAnnotation", (), {k: property(lambda self, k=k: self._d[k]) for k in attrs})
+        o = cls()
+        object.__setattr__(o, "_d", dict(attrs))
+        return o
+    if kind == "classattr":
+        return type("ClassAnnotation", (), dict(attrs))()
+    full = {"notated_path": attrs["notated_path"], "bboxes": attrs.get("bboxes", []), "seq": attrs.get("seq", [])}
+    if kind == "dataclass":
+        import dataclasses
+        cls = dataclasses.make_dataclass("DataAnnotation", list(full))
+        return cls(**full)
+    if kind == "namedtuple":
+        import collections
+        return collections.namedtuple("TupleAnnotation", list(full))(**full)
+    raise AssertionError(kind)
+
+
+def _sequence(segs, build=None):
+    """a crowsetta.Sequence by its three public constructors (the segments must then be given uniformly)"""
+    import crowsetta
+    seq = crowsetta.Sequence.from_segments([_segment(s) for s in segs])
+    if build == "dict" and segs:            # (crowsetta cannot rebuild an empty sequence from its dict)
+        return crowsetta.Sequence.from_dict(seq.as_dict())
+    if build == "keyword" and segs:
+        import numpy as np
+
+        def col(f, dt):
+            vals = [getattr(s, f) for s in seq.segments]
+            return None if any(v is None for v in vals) else np.asarray(vals, dtype=dt)
+        return crowsetta.Sequence.from_keyword(labels=np.asarray([s.label for s in seq.segments]), onsets_s=col("onset_s", float),
+                                               offsets_s=col("offset_s", float), onset_samples=col("onset_sample", int),
+                                               offset_samples=col("offset_sample", int))
+    return seq
+
+
+SEQ_BUILDS = [None, None, "dict", "keyword"]
 
 
 def _crow_j(a):
@@ -373,8 +528,11 @@ def _impl_import_bbox(inp):
 
 
 def _impl_import_sequence(inp):
-    import crowsetta
-    seq = crowsetta.Sequence.from_segments([_segment(s) for s in inp["segments"]])
+    if inp.get("share"):
+        import crowsetta
+        seq = crowsetta.Sequence.from_segments(_shared(inp["segments"], _segment))
+    else:
+        seq = _sequence(inp["segments"], inp.get("seq_build"))
     out = _cio().sequence_to_annotations(seq, _rec(inp["rec"]), adjust_time_expansion=inp["adjust"],
                                          **_label_kwargs(inp.get("opts")))
     assert isinstance(out, list)
@@ -489,14 +647,41 @@ def _impl_export_sequence(inp):
     if not inp.get("default_switches"):
         kw["cast_to_segment"] = inp["cast"]
         kw["ignore_errors"] = inp["ignore"]
-    seq = _cio().sequence_from_annotations([_ann(a, rec) for a in inp["anns"]], **kw)
+    anns = _anns(inp["anns"], rec, inp.get("share"))
+    seq = _cio().sequence_from_annotations(tuple(anns) if inp.get("as_tuple") else anns, **kw)
     return {"val": [_segment_j(s) for s in seq.segments]}
 
 
-def _clip_annotation(anns, rec):
+def _clip_annotation(anns, rec, share=False, build=None):
     from soundevent import data
-    return data.ClipAnnotation(clip=data.Clip(recording=rec, start_time=0, end_time=rec.duration),
-                               sound_events=[_ann(a, rec) for a in anns])
+    c = data.ClipAnnotation(clip=data.Clip(recording=rec, start_time=0, end_time=rec.duration), sound_events=_anns(anns, rec, share))
+    if build == "copy":
+        c = c.model_copy(deep=True)
+    elif build == "aoef":
+        c = _through_aoef(c)
+    return c
+
+
+_AOEF_N = [0]
+
+
+def _through_aoef(c):
+    """the clip annotation as `soundevent.io.load` hands it back after `soundevent.io.save` (objects built by the AOEF
+    adapters, not by the caller); falls back to the original when the file format does not keep what the converters read"""
+    from soundevent import data, io
+    _AOEF_N[0] += 1
+    path = os.path.join(leanio.run_dir(), f"c10_aoef_{_AOEF_N[0]}.json")
+    try:
+        io.save(data.AnnotationSet(clip_annotations=[c]), path)
+        back = io.load(path).clip_annotations[0]
+    finally:
+        try:
+            os.remove(path)
+        except OSError:
+            pass
+    same = (str(back.clip.recording.path) == str(c.clip.recording.path) and back.clip.recording.samplerate == c.clip.recording.samplerate
+            and [_ann_j(a) for a in back.sound_events] == [_ann_j(a) for a in c.sound_events])
+    return back if same else c
 
 
 def _impl_export_annotation(inp):
@@ -507,7 +692,8 @@ def _impl_export_annotation(inp):
         kw["cast_geometry"] = inp["cast"]
         if inp["fmt"] == "bbox":
             kw["raise_on_time_geometries"] = inp["raise_time"]
-    a = _cio().annotation_from_clip_annotation(_clip_annotation(inp["anns"], rec), "annots.csv", inp["fmt"], **kw)
+    a = _cio().annotation_from_clip_annotation(_clip_annotation(inp["anns"], rec, inp.get("share"), inp.get("clip_build")),
+                                               "annots.csv", inp["fmt"], **kw)
     return {"val": _crow_j(a)}
 
 
@@ -1268,7 +1454,7 @@ def gen_segment(rng, k=3, tmax=64, valid=0.85, seconds=None):
         if rng.random() < 0.5:
             seg["offset_s"] = None
     if rng.random() < 0.15:
-        seg["num"] = rng.choice(["int", "np"])      # Python ints / numpy scalars instead of floats
+        seg["num"] = rng.choice(["int", "np", "f32"])      # Python ints / numpy scalars instead of floats
     return seg
 
 
@@ -1278,7 +1464,7 @@ def gen_segments(rng, nmax, valid=0.97, mode=None):
     return [gen_segment(rng, valid=valid, seconds=mode) for _ in range(rng.randint(0, nmax))]
 
 
-def gen_bbox(rng, k=3, tmax=64, fmax=64):
+def gen_bbox(rng, k=3, tmax=64, fmax=64, f32=False):
     a, b = sorted([_grid(rng, 0, tmax, k), _grid(rng, 0, tmax, k)])
     if a == b:
         b = a + Fraction(1, 1 << k)
@@ -1291,7 +1477,9 @@ def gen_bbox(rng, k=3, tmax=64, fmax=64):
         lo = Fraction(0)
     box = {"onset": rat(a), "offset": rat(b), "low_freq": rat(lo), "high_freq": rat(hi), "label": rng.choice(LABELS)}
     if rng.random() < 0.2:
-        box["num"] = rng.choice(["int", "np"])       # crowsetta.BBox has no converters: ints / numpy scalars reach the converter
+        # crowsetta.BBox has no converters: ints / numpy scalars reach the converter (binary32 only where the arithmetic
+        # stays exact: power-of-two factors)
+        box["num"] = rng.choice(["int", "np", "f32"] if f32 else ["int", "np"])
     return box
 
 
@@ -1299,17 +1487,32 @@ def _extra(rng):
     return rng.choice([None, None, None, "user", "all"])
 
 
+KW_KINDS = ["reversed", "odict", "proxy", "subclass"]
+
+
+def _kwv(rng, opts, p=0.3):
+    """the same options, sometimes in another legitimate container / keyword order"""
+    if opts and rng.random() < p:
+        return {**opts, "_kw": rng.choice(KW_KINDS)}
+    return opts
+
+
+def _recv(rng, rec, p=1.0):
+    b = rng.choice(REC_BUILDS) if rng.random() < p else None
+    return {**rec, "build": b} if b else rec
+
+
 def gen_import_segment(rng, n, tes, srs, seconds=None):
     for _ in range(n):
-        yield {"segment": gen_segment(rng, seconds=seconds), "rec": {"samplerate": rng.choice(srs), "te": rng.choice(tes)},
-               "adjust": rng.random() < 0.7, "opts": rng.choice(LABEL_OPTS), "extras": _extra(rng)}
+        yield {"segment": gen_segment(rng, seconds=seconds), "rec": _recv(rng, {"samplerate": rng.choice(srs), "te": rng.choice(tes)}),
+               "adjust": rng.random() < 0.7, "opts": _kwv(rng, rng.choice(LABEL_OPTS)), "extras": _extra(rng)}
 
 
 def gen_import_bbox(rng, n, tes):
     for _ in range(n):
         fmax = rng.choice([64, 64, 1 << 20, MAXF])
-        yield {"bbox": gen_bbox(rng, fmax=fmax), "rec": {"samplerate": rng.choice(POW2_SR + INT_SR), "te": rng.choice(tes)},
-               "adjust": rng.random() < 0.7, "opts": rng.choice(LABEL_OPTS), "extras": _extra(rng)}
+        yield {"bbox": gen_bbox(rng, fmax=fmax, f32=tes is POW2_TE), "rec": _recv(rng, {"samplerate": rng.choice(POW2_SR + INT_SR), "te": rng.choice(tes)}),
+               "adjust": rng.random() < 0.7, "opts": _kwv(rng, rng.choice(LABEL_OPTS)), "extras": _extra(rng)}
 
 
 TAGS_OPTS = [None, None, {"value_only": True}, {"value_only": False}, {"select_by_key": "k1"}, {"select_by_key": "k1", "value_only": True},
@@ -1326,7 +1529,11 @@ def gen_ann(rng, ty=None, none_p=0.08, fmax=8):
         g = None
     else:
         g = gen_geom.gen_geometry(rng, ty, tmax=8, fmax=fmax, k=rng.choice([2, 3]))
-    return {"geometry": g, "tags": rng.choice(TAG_LISTS + [[TAG_A], [TAG_B]])}
+    a = {"geometry": g, "tags": rng.choice(TAG_LISTS + [[TAG_A], [TAG_B]])}
+    b = rng.choice(ANN_BUILDS)
+    if b:
+        a["build"] = b
+    return a
 
 
 EXPORT_SR = ["1", "2", "4", "7", "8", "10", "16", "100", "8000", "44100"]
@@ -1362,8 +1569,11 @@ def gen_export_sequence(rng, n, defaults):
     for _ in range(n):
         anns = [gen_ann(rng, rng.choice(["TimeInterval", "TimeInterval", None]), none_p=0.1) for _ in range(rng.randint(0, 5))]
         d = rng.random() < 0.1
+        if anns and rng.random() < 0.15:
+            anns.insert(rng.randrange(len(anns) + 1), rng.choice(anns))      # the same annotation listed twice
         yield {"anns": anns, "sr": rng.choice(EXPORT_SR), "cast": defaults["seq_cast"] if d else rng.random() < 0.5,
-               "ignore": defaults["seq_ignore"] if d else rng.random() < 0.5, "opts": rng.choice(TAGS_OPTS), "default_switches": d}
+               "ignore": defaults["seq_ignore"] if d else rng.random() < 0.5, "opts": _kwv(rng, rng.choice(TAGS_OPTS)), "default_switches": d,
+               "share": rng.random() < 0.5, "as_tuple": rng.random() < 0.3}
 
 
 def gen_export_annotation(rng, n, defaults):
@@ -1372,29 +1582,48 @@ def gen_export_annotation(rng, n, defaults):
         pool = ["BoundingBox", "BoundingBox", None] if fmt == "bbox" else ["TimeInterval", "TimeInterval", None]
         anns = [gen_ann(rng, rng.choice(pool), none_p=0.1) for _ in range(rng.randint(0, 5))]
         d = rng.random() < 0.15
-        yield {"anns": anns, "fmt": fmt, "rec": {"samplerate": rng.choice(EXPORT_SR), "te": rng.choice(["1", "2"]), "path": "rec.wav"},
+        if anns and rng.random() < 0.15:
+            anns.insert(rng.randrange(len(anns) + 1), rng.choice(anns))
+        yield {"anns": anns, "fmt": fmt, "rec": _recv(rng, {"samplerate": rng.choice(EXPORT_SR), "te": rng.choice(["1", "2"]), "path": "rec.wav"}, 0.3),
                "ignore": defaults["ann_ignore"] if d else rng.random() < 0.5, "cast": defaults["ann_cast"] if d else rng.random() < 0.5,
-               "raise_time": defaults["box_raise_time"] if d else rng.random() < 0.5, "opts": rng.choice(TAGS_OPTS),
-               "default_switches": d}
+               "raise_time": defaults["box_raise_time"] if d else rng.random() < 0.5, "opts": _kwv(rng, rng.choice(TAGS_OPTS)),
+               "default_switches": d, "share": rng.random() < 0.5, "clip_build": rng.choice([None, None, None, "copy", "aoef"])}
 
 
 def gen_crow(rng, kind=None, seconds=None, fmax=64):
     kind = kind or rng.choice(["bboxes", "seq", "seq", "bboxes", "stub"])
     path = rng.choice(["rec.wav", "rec.wav", "rec.wav", "other.wav", None])
     if kind == "bboxes":
-        return {"notated_path": path, "bboxes": [gen_bbox(rng, fmax=fmax) for _ in range(rng.randint(0, 4))], "seqs": []}
+        boxes = [gen_bbox(rng, fmax=fmax) for _ in range(rng.randint(0, 4))]
+        if boxes and rng.random() < 0.15:
+            boxes.insert(rng.randrange(len(boxes) + 1), rng.choice(boxes))     # the same box twice
+        return {"notated_path": path, "bboxes": boxes, "seqs": [], "share": rng.random() < 0.5}
     if kind == "seq":
         return {"notated_path": path, "bboxes": [],
-                "seqs": [gen_segments(rng, 4, mode=seconds)]}
+                "seqs": [gen_segments(rng, 4, mode=seconds)], "seq_build": rng.choice(SEQ_BUILDS)}
     return {"notated_path": path, "bboxes": [gen_bbox(rng) for _ in range(rng.randint(0, 2))],
             "seqs": [[gen_segment(rng, valid=1.0, seconds="both") for _ in range(rng.randint(0, 3))]
-                     for _ in range(rng.randint(0, 3))], "stub": True, "as_list": rng.random() < 0.5}
+                     for _ in range(rng.randint(0, 3))], "stub": True, "as_list": rng.random() < 0.5,
+            "stub_kind": rng.choice(STUB_KINDS)}
+
+
+def _seq_case(rng):
+    segs = gen_segments(rng, 6, valid=0.97)
+    c = {"segments": segs, "rec": _recv(rng, {"samplerate": rng.choice(POW2_SR), "te": rng.choice(POW2_TE)}), "adjust": rng.random() < 0.7,
+         "opts": _kwv(rng, rng.choice(LABEL_OPTS))}
+    r = rng.random()
+    if r < 0.2 and segs:
+        segs.insert(rng.randrange(len(segs) + 1), rng.choice(segs))     # the same segment object twice
+        c["share"] = True
+    elif r < 0.5:
+        c["seq_build"] = rng.choice(SEQ_BUILDS)
+    return c
 
 
 def gen_import_annotation(rng, n):
     for _ in range(n):
-        yield {"crow": gen_crow(rng), "rec": {"samplerate": rng.choice(POW2_SR), "te": rng.choice(POW2_TE), "path": "rec.wav"},
-               "adjust": rng.random() < 0.7, "opts": rng.choice(LABEL_OPTS), "extras": _extra(rng)}
+        yield {"crow": gen_crow(rng), "rec": _recv(rng, {"samplerate": rng.choice(POW2_SR), "te": rng.choice(POW2_TE), "path": "rec.wav"}),
+               "adjust": rng.random() < 0.7, "opts": _kwv(rng, rng.choice(LABEL_OPTS)), "extras": _extra(rng)}
 
 
 def gen_import_annotation_load(rng, n):
@@ -1770,9 +1999,7 @@ def _stage_import(ctx):
     ctx.run_cases(OPS["import_bbox"], _count(ctx, "import_bbox:pow2", gen_import_bbox(rng, n, POW2_TE)))
     ctx.run_cases(OPS["import_bbox_r1"], _count(ctx, "import_bbox:decimal te", gen_import_bbox(rng, n // 2, DEC_TE)))
     ctx.run_cases(OPS["import_sequence"], [
-        {"segments": gen_segments(rng, 6, valid=0.97),
-         "rec": {"samplerate": rng.choice(POW2_SR), "te": rng.choice(POW2_TE)}, "adjust": rng.random() < 0.7,
-         "opts": rng.choice(LABEL_OPTS)} for _ in range(ctx.budget(800, 4000))])
+        _seq_case(rng) for _ in range(ctx.budget(800, 4000))])
     ctx.run_cases(OPS["import_annotation"], gen_import_annotation(rng, ctx.budget(800, 4000)))
     ctx.run_cases(OPS["import_annotation_load"], _count(ctx, "import_annotation:recording loaded from the notated path",
                                                        gen_import_annotation_load(rng, ctx.budget(300, 1500))))
